@@ -92,7 +92,6 @@ pub fn verify_accepts_spec(M: usize, F: usize, A: usize, twin: bool) {
         let neg = vspec::v3::p384_neg_scalar(&tok[M + 48..]);
         tok[M + 48..].copy_from_slice(&neg);
     }
-    let high = vspec::v3::p384_is_high(&tok[M + 48..]);
     // the verifier's key arrives as the 49 specified bytes (k3.public), through the stable decoder
     let pkb = vspec::v3::p384_pk(&d);
     let _honest = sk_of(&d); // the key pair was honestly generated: its point is on the curve (model assumption made at derivation)
@@ -113,8 +112,8 @@ pub fn verify_accepts_spec(M: usize, F: usize, A: usize, twin: bool) {
     );
     // (one instance only: the extra satisfiability search costs about 4 min)
     kani::cover!(M != 0 || twin || tok[M] == 0, "spec signature whose r has a leading zero byte explored (searched in the |m| = 0 instance)");
-    kani::cover!(high, "token with s > n/2 (high-S form) explored");
-    kani::cover!(!high, "token with s <= n/2 (low-S form) explored");
+    // (that both a high-S and a low-S token are explored is witnessed by the covers of v3_public::verify_accepts_spec_*: same
+    // specification functions; every extra satisfiability search costs minutes with this backend's FFI model)
 }
 
 /// [C01] library's own nonce() (empty for public), sign, verify with the derived key
